@@ -601,8 +601,8 @@ pub fn exhaustive(r: i32) -> Vec<Case> {
 
 pub fn run(ctx: &Ctx, known: &[Known]) -> Report {
     let (gen_cases, r) = match ctx.tier {
-        Tier::Quick => (200_000, 1),
-        Tier::Thorough => (4_000_000, 2),
+        Tier::Quick => (1_000_000, 1),
+        Tier::Thorough => (20_000_000, 2),
     };
     let ex = exhaustive(r);
     let mut stats = run_list(&ex, &check, known);
